@@ -7,6 +7,7 @@ PROPS=${*:-C18 C10 C17 C11 C05 C04}
 MISS=0; N=0
 for P in $PROPS; do
   for d in $(ls -d seeded/$P-* | sort -t- -k2 -n); do
+    if grep -q '"superseded"' "$d/meta.json" 2>/dev/null; then echo "$(basename "$d"): skipped (superseded by a later fix, see meta.json)"; continue; fi
     N=$((N+1))
     OUT=$(timeout 2400 tools/run_seeded.sh "$P" "$d/patch.diff" 2>&1); RC=$?
     V=$(echo "$OUT" | grep -E "^SEEDED-CHANGE" | tail -1)
